@@ -19,7 +19,7 @@ use tokio::net::UdpSocket;
 use vh::net::Endpoint;
 
 #[derive(Clone, Copy, Debug, PartialEq)]
-pub enum Mode { Genuine, StolenCert, OwnCert, BadFinished }
+pub enum Mode { Genuine, StolenCert, OwnCert, BadFinished, ChainStolen, TruncatedFinished(usize) }
 
 pub struct ImpostorOutcome {
     pub mode: Mode,
@@ -87,8 +87,8 @@ pub async fn run(mode: Mode) -> ImpostorOutcome {
     let crun = tokio::spawn(crun);
 
     let (present, signer) = match mode {
-        Mode::Genuine | Mode::BadFinished => (&genuine, &genuine),
-        Mode::StolenCert => (&genuine, &other),
+        Mode::Genuine | Mode::BadFinished | Mode::TruncatedFinished(_) => (&genuine, &genuine),
+        Mode::StolenCert | Mode::ChainStolen => (&genuine, &other),
         Mode::OwnCert => (&other, &other),
     };
     let sk = SigningKey::from_pkcs8_pem(&signer.private_key).unwrap();
@@ -125,7 +125,7 @@ pub async fn run(mode: Mode) -> ImpostorOutcome {
                         let mut ske = Ske { curve_type: 3, named_curve: 23, public_key: my_pub.clone(), sig_alg: (4, 3), signature: vec![] };
                         let sig: Signature = sk.sign(&ske_signed_content(&client_random, &server_random, &ske));
                         ske.signature = sig.to_der().as_bytes().to_vec();
-                        let msgs = [whole(HT_SERVER_HELLO, 0, encode_server_hello(&sh)), whole(HT_CERTIFICATE, 1, encode_certificate(&[present.certificate[0].clone()])),
+                        let msgs = [whole(HT_SERVER_HELLO, 0, encode_server_hello(&sh)), whole(HT_CERTIFICATE, 1, encode_certificate(&(if mode == Mode::ChainStolen { vec![present.certificate[0].clone(), other.certificate[0].clone()] } else { vec![present.certificate[0].clone()] }))),
                             whole(HT_SERVER_KEY_EXCHANGE, 2, encode_ske(&ske)), whole(HT_SERVER_HELLO_DONE, 3, vec![])];
                         for m in &msgs {
                             transcript.extend_from_slice(&encode_frag(m));
@@ -158,6 +158,7 @@ pub async fn run(mode: Mode) -> ImpostorOutcome {
                 transcript.extend_from_slice(&encode_frag(f));
                 let mut vd = prf(ms, b"server finished", &Sha256::digest(&transcript), 12);
                 if mode == Mode::BadFinished { vd[3] ^= 0x40; }
+                if let Mode::TruncatedFinished(k) = mode { vd.truncate(k); }
                 let fin = encode_frag(&whole(HT_FINISHED, 4, vd));
                 let ccs = encode_record(&Rec { ct: CT_CCS, ver: (254, 253), epoch: 0, seq: rseq, payload: vec![1] });
                 let rec = encode_record(&Rec { ct: CT_HANDSHAKE, ver: (254, 253), epoch: 1, seq: 0, payload: seal(&kb[16..32], &kb[36..40], 1, 0, CT_HANDSHAKE, &fin) });
